@@ -34,9 +34,9 @@ class KaniResult:
                 "solver_and_symex_s": self.time_s, "stubs": self.stubs}
 
 
-def prepare(tag):
+def prepare(tag, modules=None):
     """Instrumented scratch copy with a warmed target directory. Returns (root, report)."""
-    root, rep = instrument.instrumented_copy(tag)
+    root, rep = instrument.instrumented_copy(tag, modules=modules)
     cache = os.path.join(common.CACHE, "kani-target")
     tgt = os.path.join(root, "target")
     if os.path.isdir(cache):
@@ -76,9 +76,12 @@ def cargo_kani(root, harnesses, extra, timeout, jobs=None):
     return rc, _filter_log(out), secs
 
 
-def find_drop_glue_symbol(root):
+def find_drop_glue_symbol(root, harness=None):
+    """Mangled name of drop_glue::<io::Error> in the goto binary of `harness` (None if that harness does not reach it)."""
     pat = os.path.join(root, "target", "kani", "*", "debug", "build", "fclones", "*", "out", "*.pretty_name_map.json")
     for f in sorted(glob.glob(pat), key=os.path.getmtime, reverse=True):
+        if harness and ("%d%s." % (len(harness), harness)) not in os.path.basename(f):
+            continue
         try:
             m = json.load(open(f))
         except Exception:
@@ -147,8 +150,13 @@ def _parse_result_block(block, r):
     m = re.search(r"\*\* (\d+) of (\d+) cover properties satisfied", block)
     if m:
         r.covers = (int(m.group(1)), int(m.group(2)))
-    for m in re.finditer(r'Failed Checks: (.*)\n\s*File: (.*)', block):
-        r.failed_checks.append((m.group(1).strip().strip('"'), m.group(2).strip()))
+    for m in re.finditer(r'Failed Checks: (.*?)\n\s*File: ([^\n]*)', block, re.S):
+        desc = re.sub(r"\s+", " ", m.group(1)).strip().strip('"')
+        loc = m.group(2).strip()
+        mc = re.search(r"in (\S+?)::\{closure#\d+\}", loc)
+        if not re.match(r"^C\d\d+\.", desc) and mc and desc.startswith("|"):
+            desc = "contract(%s): %s" % (mc.group(1), desc)
+        r.failed_checks.append((desc, loc))
     m = re.search(r"Verification Time: ([\d.]+)s", block)
     if m:
         r.time_s = float(m.group(1))
@@ -187,12 +195,18 @@ def classify(r, expect_covers=True):
             r.status, r.reason = "undecided", "cover not satisfied (%d of %d): vacuity guard" % r.covers
 
 
-def run_units(tag, harnesses, per_harness_timeout, jobs=8, keep=False):
+def run_units(tag, harnesses, per_harness_timeout, jobs=8, keep=False, modules=None):
     """Build + verify. Returns (dict harness->KaniResult, info dict)."""
     t0 = time.time()
     results = {h: KaniResult(h) for h in harnesses}
     info = {}
-    root, rep = prepare(tag)
+    try:
+        root, rep = prepare(tag, modules)
+    except instrument.InstrumentError as e:
+        for r in results.values():
+            r.status, r.reason = "undecided", "instrumentation failed: %s" % e
+        info["wall_s"] = round(time.time() - t0, 1)
+        return results, info
     info["instrumentation"] = rep
     info["scratch"] = root
     # 1. compile only (also yields the mangled name of io::Error's drop glue)
@@ -206,20 +220,30 @@ def run_units(tag, harnesses, per_harness_timeout, jobs=8, keep=False):
         info["compile_error"] = tail
         info["wall_s"] = round(time.time() - t0, 1)
         return results, info
-    extra = ["--harness-timeout", "%ds" % per_harness_timeout]
-    sym = find_drop_glue_symbol(root)
-    info["drop_glue_symbol"] = sym
-    if sym:
-        extra += ["--cbmc-args", "--unwindset", sym + ":1"]
-    info["cmd"] = "cargo kani " + " ".join(KANI_FLAGS) + " " + " ".join("--harness " + h for h in harnesses) + \
-                  " -j %d --output-format terse " % jobs + " ".join(extra)
-    n_batches = (len(harnesses) + jobs - 1) // jobs
-    rc, out, secs = cargo_kani(root, harnesses, extra, timeout=per_harness_timeout * n_batches + 600, jobs=jobs)
-    info["verify_s"] = round(secs, 1)
-    info["kani_rc"] = rc
-    parse_parallel(out, results)
+    base = ["--harness-timeout", "%ds" % per_harness_timeout]
+    # harnesses that reach io::Error's drop glue get the recursion bound (DESIGN F6c); the others (e.g. function-contract
+    # harnesses, where an unknown --unwindset entry makes CBMC exit with status 1) run without it
+    syms = {h: find_drop_glue_symbol(root, h) for h in harnesses}
+    with_sym = [h for h in harnesses if syms[h]]
+    without = [h for h in harnesses if not syms[h]]
+    info["drop_glue_symbol"] = next((v for v in syms.values() if v), None)
+    info["verify_s"] = 0.0
+    cmds, logs = [], []
+    for batch, extra in ((with_sym, base + ["--cbmc-args", "--unwindset", (info["drop_glue_symbol"] or "") + ":1"]), (without, base)):
+        if not batch:
+            continue
+        cmds.append("cargo kani " + " ".join(KANI_FLAGS) + " " + " ".join("--harness " + h for h in batch) +
+                    " -j %d --output-format terse " % jobs + " ".join(extra))
+        n_batches = (len(batch) + jobs - 1) // jobs
+        rc, out, secs = cargo_kani(root, batch, extra, timeout=per_harness_timeout * n_batches + 600, jobs=jobs)
+        info["verify_s"] = round(info["verify_s"] + secs, 1)
+        info["kani_rc"] = rc
+        parse_parallel(out, results)
+        logs.append(out)
+    info["cmd"] = " ; ".join(cmds)
     for r in results.values():
         classify(r)
+    out = "\n".join(logs)
     info["log_tail"] = "\n".join(out.splitlines()[-60:])
     info["full_log"] = out
     info["wall_s"] = round(time.time() - t0, 1)
@@ -229,7 +253,7 @@ def run_units(tag, harnesses, per_harness_timeout, jobs=8, keep=False):
 def counterexample(root, harness, timeout=480):
     """Re-runs one failing harness sequentially with concrete playback; returns the text after the results."""
     extra = ["-Z", "concrete-playback", "--concrete-playback=print"]
-    sym = find_drop_glue_symbol(root)
+    sym = find_drop_glue_symbol(root, harness)
     if sym:
         extra += ["--cbmc-args", "--unwindset", sym + ":1"]
     rc, out, secs = cargo_kani(root, [harness], extra, timeout=timeout)
